@@ -135,6 +135,21 @@ func genC07(r *Rand, tier string) []Case {
 			tags = append(tags, "derived")
 			inner, _, _ = innerQuery(r, t, &tags)
 			q = outerOver(r, t, &From{K: "derived", Q: inner, Alias: "d"}, []string{"d"}, &tags)
+			if r.Chance(40) {
+				// an outer LIMIT/OFFSET next to DISTINCT or an aggregate-only select list must apply to the OUTER result
+				if r.Bool() {
+					q.Items = []Item{{E: Col("d", Pick(r, []string{"s1", "s2", "n1"})), Alias: "g"}}
+					q.Distinct = true
+					tags = append(tags, "derived-distinct-limit")
+				} else {
+					q.Items = []Item{{E: &Expr{K: "agg", Name: "count", Star: true}, Alias: "k"}, {E: &Expr{K: "agg", Name: "sum", Path: []string{"d", "n1"}}, Alias: "s"}}
+					tags = append(tags, "derived-aggregate-limit")
+				}
+				q.Limit = intp(1 + r.Intn(2))
+				if r.Bool() {
+					q.Offset = intp(r.Intn(2))
+				}
+			}
 		case 5: // select-list subquery against the current row
 			tags = append(tags, "subquery-row")
 			sub := &Stmt{From: &From{K: "table", Path: []string{"items"}}, Items: []Item{{E: Col("p")}}}
@@ -151,6 +166,14 @@ func genC07(r *Rand, tier string) []Case {
 			sub := &Stmt{From: &From{K: "table", Path: []string{"<-", "vals"}}, Items: []Item{{E: Col("v")}}}
 			if r.Bool() {
 				sub.Where = Cmp(">", Col("v"), Num(t.numConst(r)))
+			}
+			if r.Chance(45) {
+				// reads a root table AND is correlated to the current row (through `<-`): differs per row
+				sub.Where = Cmp(Pick(r, cmpOps), Col("v"), Col("<-", Pick(r, []string{"n1", "n2", "id"})))
+				tags = append(tags, "subquery-root-correlated")
+				if r.Bool() {
+					sub.Items = []Item{{E: &Expr{K: "agg", Name: "count", Star: true}, Alias: "k"}}
+				}
 			}
 			q = &Stmt{From: &From{K: "table", Path: []string{"t"}}, Items: []Item{{E: Col("id")}, {E: &Expr{K: "sub", Q: sub}, Alias: "sub"}}}
 		case 7: // EXISTS over the nested array, predicate may mention outer columns
